@@ -328,8 +328,13 @@ func (n *Normer) Norm(v ssa.Value) Poly {
 	if n.FoldTables {
 		switch v.(type) {
 		case *ssa.UnOp, *ssa.Index, *ssa.Field, *ssa.Lookup, *ssa.Extract:
-			if tv, ok := n.tableVal(v, 0); ok && tv != nil && tv.Kind == VInt {
-				return pConst(tv.I)
+			if tv, ok := n.tableVal(v, 0); ok && tv != nil {
+				switch tv.Kind {
+				case VInt:
+					return pConst(tv.I)
+				case VString:
+					return pAtom("const:" + strconv.Quote(tv.S))
+				}
 			}
 		}
 	}
@@ -392,6 +397,9 @@ func (n *Normer) Norm(v ssa.Value) Poly {
 			if p, ok := n.localTableLoad(x); ok {
 				return p // element of a local literal table at a known position
 			}
+			if p, ok := n.arrayElemLoad(x); ok {
+				return p // element of an array value that was handed over as a whole
+			}
 			return n.normLoad(x.X)
 		case token.NOT:
 			return pAtom("Not(" + n.Norm(x.X).asAtom() + ")")
@@ -437,12 +445,29 @@ func (n *Normer) Norm(v ssa.Value) Poly {
 			}
 		}
 		if isStringType(x.X.Type()) {
+			if b, ok := n.constStringByte(x.X, x.Index); ok {
+				return pConst(b)
+			}
 			// a byte of a string reads like an element of the byte slice made from it
 			return n.atom(n.Norm(x.X).asAtom() + "[" + n.Norm(x.Index).String() + "]")
+		}
+		switch x.X.(type) {
+		case *ssa.Call, *ssa.Parameter:
+			// an array value produced by a helper (or handed in) and read at a known position
+			if _, isArr := x.X.Type().Underlying().(*types.Array); isArr {
+				if k, isK := n.Norm(x.Index).IsConst(); isK {
+					if p, ok := n.arrayElem(x.X, k, 0); ok {
+						return p
+					}
+				}
+			}
 		}
 		return pAtom("idx(" + n.Norm(x.X).asAtom() + "," + n.Norm(x.Index).String() + ")")
 	case *ssa.Lookup:
 		if isStringType(x.X.Type()) {
+			if b, ok := n.constStringByte(x.X, x.Index); ok {
+				return pConst(b)
+			}
 			return n.atom(n.Norm(x.X).asAtom() + "[" + n.Norm(x.Index).String() + "]")
 		}
 		return pAtom("idx(" + n.Norm(x.X).asAtom() + "," + n.Norm(x.Index).String() + ")")
@@ -1601,4 +1626,18 @@ func mkMod(a, b Poly) Poly {
 		}
 	}
 	return pAtom("Mod(" + a.String() + "," + b.String() + ")")
+}
+
+// constStringByte: byte k of a constant string, for a constant position k inside it.
+func (n *Normer) constStringByte(sv, idx ssa.Value) (int64, bool) {
+	k, ok := sv.(*ssa.Const)
+	if !ok || k.Value == nil || k.Value.Kind() != constant.String {
+		return 0, false
+	}
+	i, isK := n.Norm(idx).IsConst()
+	str := constant.StringVal(k.Value)
+	if !isK || i < 0 || i >= int64(len(str)) {
+		return 0, false
+	}
+	return int64(str[i]), true
 }
